@@ -236,7 +236,7 @@ func (g *Global) getKeyPairs() ([]KeyPair, error) {
 		kp := KeyPair{
 			Key: Key{
 				KeyType: PsetProprietary,
-				KeyData: proprietaryKey(v.Subtype, v.KeyData),
+				KeyData: proprietaryKeyWithIdentifier(v.Identifier, v.Subtype, v.KeyData),
 			},
 			Value: v.Value,
 		}
@@ -393,6 +393,9 @@ func (g *Global) deserialize(buf *bytes.Buffer) error {
 					}
 					g.ProprietaryData = append(g.ProprietaryData, pd)
 				}
+			} else {
+				// an entry of another identifier: keep it as it is
+				g.ProprietaryData = append(g.ProprietaryData, pd)
 			}
 		default:
 			g.Unknowns = append(g.Unknowns, kp)
